@@ -4381,7 +4381,17 @@ func (c *BytecodeCompiler) listOrTuplePattern(typ types.Type, location *position
 		c.emit(location.StartPos.Line, bytecode.UNDEFINED)
 		c.emit(location.StartPos.Line, bytecode.UNDEFINED)
 		c.emitNewArrayList(0, location)
-		restListVar = c.defineLocal(restVariableName, location)
+		switch c.mode {
+		case valuePatternDeclarationBytecodeCompilerMode:
+			restListVar = c.defineLocal(restVariableName, location)
+		default:
+			// like every other identifier pattern: the same name may be bound
+			// by several alternatives of one pattern
+			restListVar = c.defineLocalOverrideCurrentScope(restVariableName, location)
+		}
+		if restListVar == nil {
+			return
+		}
 		c.emitSetLocalNoPop(location.StartPos.Line, restListVar.index)
 		c.emit(location.StartPos.Line, bytecode.POP)
 	}
@@ -4410,7 +4420,12 @@ func (c *BytecodeCompiler) listOrTuplePattern(typ types.Type, location *position
 
 	var lengthVar *bytecodeLocal
 	if elementBeforeRestCount != -1 {
-		lengthVar = c.defineLocal(fmt.Sprintf("#!listPatternLength%d", c.patternNesting), location)
+		// several list patterns with rest elements may sit at the same nesting level
+		// of one pattern (`[[a, *b], [c, *d]]`, `[1, *] || [2, *]`): reuse the hidden local
+		lengthVar = c.defineLocalOverrideCurrentScope(fmt.Sprintf("#!listPatternLength%d", c.patternNesting), location)
+		if lengthVar == nil {
+			return
+		}
 		c.emitSetLocalNoPop(location.StartPos.Line, lengthVar.index)
 	}
 
@@ -4445,7 +4460,10 @@ func (c *BytecodeCompiler) listOrTuplePattern(typ types.Type, location *position
 	}
 
 	if elementBeforeRestCount != -1 {
-		iteratorVar := c.defineLocal(fmt.Sprintf("#!listPatternIterator%d", c.patternNesting), location)
+		iteratorVar := c.defineLocalOverrideCurrentScope(fmt.Sprintf("#!listPatternIterator%d", c.patternNesting), location)
+		if iteratorVar == nil {
+			return
+		}
 
 		if restVariableName != "" {
 			// adjust the length variable
